@@ -429,3 +429,61 @@ Theorem walk_complete N dims c :
   In c (coord_product dims) -> all_margin c = false -> rows_matching N dims c <> [] ->
   In (c, rows_matching N dims c) (walk dims).
 Proof. intros W NM H1 H2 H3. apply (walk_In N); auto. Qed.
+
+
+(* ---------- reflection of the boolean twins run on the real dimensions ---------- *)
+Lemma nodupZ_b_sound l : nodupZ_b l = true -> NoDup l.
+Proof.
+  induction l as [|x l IH]; intros H; [constructor|].
+  cbn [nodupZ_b] in H. apply andb_true_iff in H. destruct H as [H1 H2].
+  apply negb_true_iff, memZ_false in H1. constructor; auto.
+Qed.
+
+Lemma disjointZ_b_sound a b x : disjointZ_b a b = true -> In x a -> In x b -> False.
+Proof.
+  unfold disjointZ_b. rewrite forallb_forall. intros H Ha Hb.
+  specialize (H x Ha). apply negb_true_iff, memZ_false in H. contradiction.
+Qed.
+
+Lemma pairwise_disjoint_same es : pairwise_disjoint_b es = true ->
+  forall e e' x, In e es -> In e' es -> In x (snd e) -> In x (snd e') -> NoDup (map fst es) -> fst e = fst e'.
+Proof.
+  induction es as [|e0 es IH]; intros H e e' x He He' Hx Hx' ND; [destruct He|].
+  cbn [pairwise_disjoint_b] in H. apply andb_true_iff in H. destruct H as [H1 H2].
+  rewrite forallb_forall in H1. cbn [map] in ND. inversion ND as [|? ? Hn ND']; subst.
+  destruct He as [<-|He], He' as [<-|He'].
+  - reflexivity.
+  - exfalso. exact (disjointZ_b_sound _ _ x (H1 e' He') Hx Hx').
+  - exfalso. exact (disjointZ_b_sound _ _ x (H1 e He) Hx' Hx).
+  - eapply IH; eauto.
+Qed.
+
+Theorem dim_wf_b_sound N d : dim_wf_b N d = true -> dim_wf N d.
+Proof.
+  unfold dim_wf_b. rewrite !andb_true_iff. intros [[[H1 H2] H3] H4].
+  rewrite forallb_forall in H3.
+  assert (E: forall v rows, In (v, rows) (dentries d) ->
+             sincr rows /\ rows <> [] /\ forall r, In r rows -> 0 <= r < N).
+  { intros v rows Hin. specialize (H3 _ Hin). unfold dentry_ok_b in H3. cbn [snd] in H3.
+    rewrite !andb_true_iff in H3. destruct H3 as [[A B] C].
+    split; [now apply sincr_b_iff|]. split; [now apply nonempty_b_iff|].
+    rewrite forallb_forall in C. intros r Hr. specialize (C r Hr). lia. }
+  constructor.
+  - now apply nodupZ_b_sound.
+  - apply negb_true_iff, memZ_false in H2. exact H2.
+  - intros v rows Hin. apply (E v rows Hin).
+  - intros v rows Hin. apply (E v rows Hin).
+  - intros v rows r Hin. apply (E v rows Hin).
+  - intros r v v' [rows [Hin Hr]] [rows' [Hin' Hr']].
+    apply (pairwise_disjoint_same _ H4 (v, rows) (v', rows') r Hin Hin' Hr Hr').
+    apply nodupZ_b_sound. exact H1.
+Qed.
+
+Lemma forall_dim_wf_b_sound N dims : forallb (dim_wf_b N) dims = true -> Forall (dim_wf N) dims.
+Proof. rewrite forallb_forall. intros H. apply Forall_forall. intros d Hd. apply dim_wf_b_sound. auto. Qed.
+
+Lemma forall_no_margin_key_b_sound dims : forallb no_margin_key_b dims = true -> Forall no_margin_key dims.
+Proof.
+  rewrite forallb_forall. intros H. apply Forall_forall. intros d Hd. specialize (H d Hd).
+  unfold no_margin_key_b in H. apply negb_true_iff, memZ_false in H. exact H.
+Qed.
